@@ -10,9 +10,13 @@ SPEC = {'id': 'C29',
  'partial_theorems': ['C29_vote_requires_log_check', 'C29_prevote_requires_log_check', 'C29_grant_recorded', 'C29_rule_is_conjunctive'],
  'counterexamples': ['C29_leader_completeness_counterexample'],
  'level': 'other',
- 'level_text': 'The property is FALSE of the code (also with the C27 repair): Lean theorem C29_leader_completeness_counterexample refutes '
-               'C29_leader_completeness_statement (history variable: entries committed by a node acting as leader) with a 27-event schedule on 3 '
-               "nodes: node 1 commits an entry as leader of term 2, node 0 - whose log diverges below its last entry - is granted node 2's vote "
+ 'level_text': 'Proved locally (every node state, every request): C29_vote_requires_log_check / C29_prevote_requires_log_check - a vote or pre-vote '
+               "is granted only if the voter's last log_index, last log_term and log_commit are EACH <= the candidate's (a conjunction, not the "
+               "lexicographic (term, index) rule of Raft: C29_rule_is_conjunctive), only for a term above the voter's and only from Election / "
+               'Voted(lower term) state; C29_grant_recorded ties it to the cluster step and the grant history. Nothing below the last entry is ever '
+               'compared, hence: The property is FALSE of the code (also with the C27 repair): Lean theorem C29_leader_completeness_counterexample '
+               'refutes C29_leader_completeness_statement (history variable: entries committed by a node acting as leader) with a 27-event schedule '
+               "on 3 nodes: node 1 commits an entry as leader of term 2, node 0 - whose log diverges below its last entry - is granted node 2's vote "
                'because validate_log_for_vote compares only last index/term/commit, and becomes leader of term 3 without the entry. Reproduced on '
                'the real code by the harness oracle (corpus/C29); known finding (same root cause as C28). The model (Model/Raft.lean, one Lean '
                'function per raft.rs function; Model/Net.lean network + step) is tied to the code on every run: harness/raft/build.rs compiles the '
